@@ -131,13 +131,17 @@ def gen(rng, tier, idx):
     scn["cfg2"] = gen_config(rng, pipe_in=rng.chance(50))
     scn["stdin_fault"] = None
     if rng.chance(45):
-        k = rng.weighted([(4, "CHUNK"), (3, "NONL"), (3, "CRLF"), (2, "LONG"), (2, "EMPTY"), (2, "ERR"), (1, "TRAILING_WS")])
+        k = rng.weighted([(4, "CHUNK"), (3, "NONL"), (3, "CRLF"), (2, "LONG"), (2, "EMPTY"), (2, "ERR"), (1, "TRAILING_WS"), (2, "EXTRA_LINES")])
         f = {"kind": k}
         if k == "CHUNK":
             f["chunks"] = [rng.range(1, 7) for _ in range(rng.range(1, 12))]
         elif k == "ERR":
             f["after"] = rng.range(0, 20)
             f["errno"] = rng.choice([5, 4, 11])
+        elif k == "EXTRA_LINES":
+            # only the first line is the script; whatever follows must not matter
+            f["extra"] = rng.choice(["step\n", "[OP_RETURN]\n", "0x6a\n\n", "\n\n", "garbage without newline", "x" * 5000 + "\n", "\x00\x01\n"])
+            f["chunks"] = [rng.range(1, 40) for _ in range(rng.below(4))]
         elif k == "LONG" and scn.get("script") is not None:
             pad = S.asm([rng.bytes(rng.choice([505, 509, 510, 511, 520])), "OP_DROP"])
             scn["script"] = (pad + bytes.fromhex(scn["script"])).hex()
@@ -209,6 +213,9 @@ def world_for(scn, cfg, stdin_fault=None, verbose=False):
             data = data[:f.get("after", 0)]
             w["stdin"]["end_errno"] = f.get("errno", 5)
         elif k == "CHUNK":
+            w["stdin"]["chunks"] = list(f.get("chunks", []))
+        elif k == "EXTRA_LINES":
+            data = script_txt + "\n" + f.get("extra", "")
             w["stdin"]["chunks"] = list(f.get("chunks", []))
         w["stdin"]["data"] = data
     return w
